@@ -1,5 +1,9 @@
 import J5V.Conc.SchedProofs
+import J5V.Conc.SchedFlat
+import J5V.Conc.SchedSerial
 import J5V.Conc.SchedLocal
+import J5V.Conc.SchedHB
+import J5V.Conc.SchedRW
 import J5V.Conc.CacheProofs
 import J5V.Generated.LocksFacts
 /-!
@@ -7,38 +11,77 @@ import J5V.Generated.LocksFacts
 
 Only the property theorems (and their non-vacuity examples) live here.
 
-* `Sched` part: for **any** number of threads, **any** thread programs and **any** schedule —
-  a lock discipline excludes data races (`C10_guarded_race_free`), flat locking excludes deadlock
-  (`C10_no_deadlock`), and when every operation is one critical section every schedule produces
-  exactly the state (memory, every thread's observations) of a sequential execution of the
-  operations in some order (`C10_serialisable`).
+* `Sched` part: for **any** number of threads, **any** thread programs and **any** schedule.
+  Locks are reader/writer locks with Go's writer preference (`Conc/Sched.lean`).
+  - Race freedom in the happens-before sense (`RaceHB`: two conflicting accesses not ordered by
+    program order + the synchronisation edges of `sync.Mutex`/`sync.RWMutex`):
+    `C10_hb_publication` — writes under the write lock, reads of unpublished locations under at
+    least the read lock, reads of *published* locations anywhere provided the execution obeys the
+    publication rule (`PubOrdered`: the reader acquired the lock between the write and its read) —
+    with the lockset theorems `C10_guarded_hb_race_free` (mutex) and
+    `C10_rw_guarded_hb_race_free` (reader/writer) as the special case "nothing published".
+  - The same disciplines exclude co-enabled conflicting accesses (`C10_guarded_race_free`,
+    `C10_rw_guarded_race_free`).
+  - Flat locking (no acquisition, in either mode, while a lock is held) excludes deadlock, also
+    with waiting writers blocking new readers (`C10_no_deadlock`, `C10_can_finish`).
+  - When every operation is one critical section of a mutex every schedule produces exactly the
+    state (memory, every thread's observations) of a sequential execution of the operations in
+    some order (`C10_serialisable`); with read sections, write sections run in isolation and read
+    sections see one snapshot (`C10_rw_write_sections_isolated`).
 * `Cache` part: for **any** descriptor graph (shared sub-schemas, self / mutual recursion, failing
   members) and **any** cache reachable by earlier requests, a request returns what it returns on
   an empty cache (`C10_cache_transparent`); a failed request leaves no trace; what has been
   returned is never modified again.
-* Code part: the table regenerated from the Go source by `extract/locks.go` satisfies the
-  discipline (`C10_code_guarded`, `C10_code_locksites`, `C10_code_no_unknown`: `decide` over the
-  whole table), hence programs made of the extracted access sites are race free
-  (`C10_code_race_free`).
+* Code part: the tables regenerated from the Go source by `extract/locks.go` satisfy the
+  disciplines (`decide` over the whole tables).
 
 Scope ("partial"): the theorems are about the lock discipline the extractor can see and about
-the cache algorithm; the Go memory model (a mutex release happens-before the next acquire), the
-Go runtime and thread-safety inside protobuf-go are trusted. Reads of schema fields after
-`Schema` has returned are outside the lock by design; they are covered by
-`C10_published_frozen` (write-once before publication) plus the trusted happens-before edge.
+the cache algorithm; the Go memory model (the synchronisation edges above; data-race-free programs
+are sequentially consistent), the Go runtime and thread-safety inside protobuf-go are trusted.
 -/
 namespace J5V.Props.C10
 open J5V.Conc.Sched J5V.Conc.Cache
 
-/-! ## Any N, any schedule -/
+/-! ## Any N, any schedule: race freedom -/
 
-/-- Lock discipline ⇒ no data race, in every state reachable under every schedule. -/
+/-- **Publication.** Static discipline: every write under the write lock of `l`, every read of a
+location outside `X` under the read or write lock, `l` flat. Rule of the execution: a location of
+`X` is read by another thread only after that thread acquired `l` (in either mode) after the
+write. Then no two conflicting accesses are unordered by happens-before. -/
+theorem C10_hb_publication (wv : WriteFn) (l : Nat) (X : Nat → Bool) (p : Prog) (h : PubGuardedBy l X p)
+    (sched : List Nat) (hpub : PubOrdered l X (trace wv p sched)) : ¬ RaceHB (trace wv p sched) :=
+  hb_race_free wv l X p h sched hpub
+
+/-- Reader/writer lock discipline ⇒ no happens-before race (nothing published). -/
+theorem C10_rw_guarded_hb_race_free (wv : WriteFn) (l : Nat) (p : Prog) (h : RWGuardedBy l p) :
+    ∀ sched : List Nat, ¬ RaceHB (trace wv p sched) :=
+  fun sched => hb_race_free wv l _ p h sched (pubOrdered_empty l _)
+
+/-- Mutex discipline ⇒ no happens-before race: the lockset theorem as a corollary. -/
+theorem C10_guarded_hb_race_free (wv : WriteFn) (l : Nat) (p : Prog) (h : AllGuardedBy l p) :
+    ∀ sched : List Nat, ¬ RaceHB (trace wv p sched) :=
+  C10_rw_guarded_hb_race_free wv l p (allGuarded_pubGuarded l _ p h)
+
+/-- The trace is the trace of `run`: the traced machine goes through the same states. -/
+theorem C10_trace_of_run (wv : WriteFn) (p : Prog) (sched : List Nat) : (trun wv p sched).st = run wv p sched :=
+  trun_st wv p sched
+
+/-- Writes under the write lock and reads under at least the read lock ⇒ no two conflicting
+accesses are ever enabled together, in every state reachable under every schedule. -/
+theorem C10_rw_guarded_race_free (wv : WriteFn) (l : Nat) (p : Prog) (h : RWGuardedBy l p) :
+    ∀ sched : List Nat, ¬ Race (run wv p sched) :=
+  fun sched => gi_no_race l _ (gi_runFrom wv l _ sched _ (gi_init l _ p h))
+
+/-- Lock discipline (mutex) ⇒ no data race, in every state reachable under every schedule. -/
 theorem C10_guarded_race_free (wv : WriteFn) (l : Nat) (p : Prog) (h : AllGuardedBy l p) :
     ∀ sched : List Nat, ¬ Race (run wv p sched) :=
-  fun sched => ginv_no_race l _ (ginv_runFrom wv l sched _ (ginv_init l p h))
+  C10_rw_guarded_race_free wv l p (allGuarded_pubGuarded l _ p h)
 
-/-- No nested acquisition (any number of locks) ⇒ as long as some thread is unfinished, some
-thread can take a step, in every state reachable under every schedule. -/
+/-! ## Any N, any schedule: deadlock freedom, serialisability -/
+
+/-- No nested acquisition (any number of reader/writer locks, waiting writers block new readers)
+⇒ as long as some thread is unfinished, some thread can take a step, in every state reachable
+under every schedule. -/
 theorem C10_no_deadlock (wv : WriteFn) (p : Prog) (h : NoNesting p) (sched : List Nat)
     (hnd : ¬ AllDone (run wv p sched)) : ∃ i, Enabled (run wv p sched) i :=
   finv_enabled _ (finv_runFrom wv sched _ (finv_init p h)) hnd
@@ -72,7 +115,7 @@ theorem C10_serialisable_prefix (wv : WriteFn) (l : Nat) (p : Prog) (h : OpsProg
 same memory, same observations of every thread. -/
 theorem C10_serialisable (wv : WriteFn) (l : Nat) (p : Prog) (h : OpsProg l p) (sched : List Nat)
     (hdone : AllDone (run wv p sched)) : ∃ order, run wv p sched = runSeq wv p order := by
-  rcases good_run wv l p h sched with ⟨_, order, ho⟩ | ⟨i, _, _, _, _, _, _, _, _, _, _, ⟨ti, hti, hshi⟩, _⟩
+  rcases good_run wv l p h sched with ⟨_, order, ho⟩ | ⟨i, _, _, _, _, _, _, _, _, _, _, _, _, ⟨ti, hti, hshi⟩, _⟩
   · exact ⟨order, ho⟩
   · have := hdone i ti hti
     subst this
@@ -88,10 +131,23 @@ theorem C10_serialisable_local (wv : WriteFn) (l : Nat) (p : Prog) (h : OpsProgT
   obtain ⟨sched', hrel⟩ := rel_runFrom wv l sched (init p) (init (stripProg p)) (rel_init l p) (tinv_init l p h)
   have hdone' := rel_allDone l _ _ hrel hdone
   obtain ⟨order, ho⟩ := C10_serialisable wv l (stripProg p) (opsProg_strip l p h) sched' hdone'
-  obtain ⟨_, hm, hlg, _, _⟩ := hrel
+  obtain ⟨_, _, _, hm, hlg, _, _⟩ := hrel
   refine ⟨order, ?_, ?_⟩
   · rw [← ho]; exact hm.symm
   · rw [← ho]; exact hlg.symm
+
+/-- Reader/writer operations (write sections `lock … unlock`, read-only read sections
+`rlock … runlock`): write sections are serialised with everything — while a thread is inside one,
+no step of any other thread changes the memory or anybody's observations — and nothing is written
+while a read lock is held (a read section sees one snapshot). -/
+theorem C10_rw_write_sections_isolated (wv : WriteFn) (l : Nat) (p : Prog) (h : RWOpsProg l p) (sched : List Nat) :
+    (∀ i j, (run wv p sched).owner l = some i → j ≠ i →
+      (step wv (run wv p sched) j).mem = (run wv p sched).mem ∧
+      (step wv (run wv p sched) j).logs = (run wv p sched).logs) ∧
+    ((run wv p sched).readers l ≠ [] → ∀ j, (step wv (run wv p sched) j).mem = (run wv p sched).mem) := by
+  have hg : GIx l (rwOpsShape l) (run wv p sched) :=
+    gix_runFrom wv l _ (disc_rwOps l) sched _ (gix_init l _ p h)
+  exact ⟨fun i j hi hij => rw_write_isolated wv l _ hg i j hi hij, fun hr j => rw_read_snapshot wv l _ hg j hr⟩
 
 /-! ## The cache -/
 
@@ -151,110 +207,275 @@ theorem C10_fuel_never_exhausted (G : Graph) (c : Cache) (n : Nat) (hg : GoodFro
     (buildNode G (G.length + 1) c n).2 = true :=
   buildNode_fuel_enough G _ c n (Nat.lt_succ_of_le (unreg_le G c)) hg
 
-/-! ## The code: obligations over the table regenerated from the Go source (E7) -/
+/-! ## The code: obligations over the tables regenerated from the Go source (E7) -/
 
 open J5V.Generated.Locks
 
-def muId : Nat := lockNames.findIdx (· == "mu")
+/-- the mutex of `SchemaCache` (whatever the field is called; there must be exactly one) -/
+def cacheLock : String :=
+  match cacheLocks with
+  | [l] => l
+  | _ => "?"
+
+def muId : Nat := lockNames.findIdx (· == cacheLock)
+
+/-- held as the writer: `mu.Lock()` -/
+def isW (g : Option Nat) : Bool := g == some muId && decide (muId < lockNames.length)
+
+/-- held at least as a reader: `mu.Lock()`, `mu.RLock()`, or a helper only reached under one of them -/
+def isRW (g : Option Nat) : Bool :=
+  match g with
+  | some k =>
+    match lockNames[k]? with
+    | some n => n == cacheLock || n == cacheLock ++ ".R" || n == cacheLock ++ "+" ++ cacheLock ++ ".R"
+    | none => false
+  | none => false
 
 /-- accesses that the discipline requires to be under the lock: every write to a location that is
 mutated after construction, and every access to a map or to a field of the struct that owns the
-mutex (the cache index) -/
+mutex (the cache index) or to a package-level variable -/
 def mustGuard (a : Access) : Bool := a.write || a.isMap || a.lockOwner
 
-def codeGuarded : Bool := accesses.all (fun a => !mustGuard a || a.guard == some muId)
+/-- reader/writer discipline with one lock: writes hold it as the writer, the other protected
+accesses at least as a reader -/
+def codeGuarded : Bool := accesses.all (fun a => !mustGuard a || (if a.write then isW a.guard else isRW a.guard))
+
+def isCacheSite (s : LockSite) : Bool :=
+  match lockNames[s.lock]? with
+  | some n => n == cacheLock || n == cacheLock ++ ".R"
+  | none => false
 
 def codeLockSites : Bool :=
-  lockSites.all (fun s => !s.nested && (if s.lock == muId then s.deferredUnlock else s.leaf)) &&
+  lockSites.all (fun s => !s.nested && (if isCacheSite s then s.deferredUnlock else s.leaf)) &&
   lockSites.any (fun s => s.lock == muId)
 
-/-- The extractor found the three `Codec` entry points, the lock and guarded map writes. -/
+/-- The extractor found the three `Codec` entry points and the `Reflector` ones, the one lock of
+the cache and guarded map writes. -/
 theorem C10_code_extracted :
-    rootsFound = 3 ∧ lockNames[muId]? = some "mu" ∧
-    accesses.any (fun a => a.write && a.isMap && a.guard == some muId) = true := by decide
+    rootsFound = 3 ∧ extraRoots.length ≥ 2 ∧ cacheLocks.length = 1 ∧ lockNames[muId]? = some cacheLock ∧
+    accesses.any (fun a => a.write && a.isMap && isW a.guard) = true := by decide
 
-/-- Every access that must be guarded is dominated by `mu.Lock()` + deferred `Unlock` or lies in a
-helper only called with `mu` held. This is what breaks when a `Lock` is stripped or a map write
-moves outside the lock. -/
+/-- Every access that must be guarded is dominated by `mu.Lock()` + deferred `Unlock` (a read also
+by `mu.RLock()` + deferred `RUnlock`) or lies in a helper only called with the lock held: one and
+the same lock for every protected location. This is what breaks when a `Lock` is stripped, a map
+access moves outside the lock, or the lock is split in two. -/
 theorem C10_code_guarded : codeGuarded = true := by decide
 
-/-- Every acquisition of `mu` releases by `defer`, no acquisition is reachable from a position
-where a lock is already held (no nesting), other locks are leaf locks. -/
+/-- Every acquisition of the cache lock (in either mode) releases by `defer`, no acquisition is
+reachable from a position where a lock is already held (no nesting, in either mode), other locks
+are leaf locks: the premise of `C10_no_deadlock`; every `Schema` call is one critical section: the
+premise of `C10_serialisable` / `C10_rw_write_sections_isolated`, hence lookups only ever see the
+cache between whole builds (the premise `Reachable` of `C10_no_unlinked_visible`). -/
 theorem C10_code_locksites : codeLockSites = true := by decide
 
 /-- Nothing the extractor could not classify. -/
-theorem C10_code_no_unknown : unknownLocations = 0 := by decide
+theorem C10_code_no_unknown : unknownLocations = 0 ∧ opaqueShared = [] := by decide
+
+/-- **Published reads.** Every read outside the lock of a location that is written under it (the
+fields of the schemas a `Schema` call returned: `RefSchema.To`, `ObjectSchema.Properties`, …) can
+only be executed by a goroutine that has been through an obtainer — `SchemaCache.Schema`, or a
+function that unconditionally calls one (`Reflector.NewRoot`, …) — since it entered the codec:
+the static half of the publication rule (`PubOrdered`: the reader acquired the lock between the
+write and its read). And these are all the unguarded rows of the table. -/
+theorem C10_code_published_dominated :
+    publishedReads.all (·.dominated) = true ∧ publishedReads.length > 10 ∧
+    obtainers.contains "j5schema.SchemaCache.Schema" = true ∧
+    (accesses.filter (fun a => !isRW a.guard)).length = publishedReads.length ∧
+    (accesses.filter (fun a => !isRW a.guard)).all (fun a => !a.write && !mustGuard a) = true := by decide
+
+/-- **Shared state beyond the cache index.** Of every package-level variable and every field of a
+type reachable from the package-level variables (the default codecs among them), `Codec` and
+`Reflector`: what is written by a function on the path is written under the write lock of the
+cache (or inside a `sync.Once`); everything else is immutable after construction. -/
+theorem C10_code_no_unguarded_shared_write :
+    sharedState.all (fun r => !r.writtenOnPath || r.guarded) = true ∧
+    sharedState.any (fun r => r.name == "Package.Schemas" && r.writtenOnPath && r.guarded) = true ∧
+    sharedState.any (fun r => r.name == "var codec.Global" && !r.writtenOnPath) = true ∧
+    sharedState.any (fun r => r.name == "var j5codec.Global" && !r.writtenOnPath) = true ∧
+    sharedState.any (fun r => r.name == "Codec.refl" && !r.writtenOnPath) = true ∧
+    sharedState.any (fun r => r.name == "Reflector.schemaSet" && !r.writtenOnPath) = true := by decide
+
+/-! ### instantiation of the race theorems on the extracted sites -/
+
+def act (a : Access) (x : Nat) : Action := if a.write then .write x else .read x
+
+/-- The trace of one extracted access site on the concrete location `x`: inside a write section of
+lock 0 when the table says the cache lock guards it as the writer, inside a read section when it
+says "at least as a reader", bare otherwise (one section per access: finer than the code, hence
+more interleavings). -/
+def siteTrace (s : Access × Nat) : Thread :=
+  if isW s.1.guard then [.lock 0, act s.1 s.2, .unlock 0]
+  else if isRW s.1.guard then [.rlock 0, act s.1 s.2, .runlock 0]
+  else [act s.1 s.2]
+
+def codeThread (sites : List (Access × Nat)) : Thread := sites.flatMap siteTrace
+
+theorem row_guard (a : Access) (ha : a ∈ accesses) (hw : a.write = true) : isW a.guard = true := by
+  have hall := C10_code_guarded
+  unfold codeGuarded at hall
+  rw [List.all_eq_true] at hall
+  have := hall a ha
+  simpa [mustGuard, hw] using this
+
+theorem isW_isRW (g : Option Nat) (h : isW g = true) : isRW g = true := by
+  simp only [isW, Bool.and_eq_true, beq_iff_eq, decide_eq_true_eq] at h
+  obtain ⟨rfl, _⟩ := h
+  have := C10_code_extracted.2.2.2.1
+  simp [isRW, this]
+
+theorem codeThread_guarded (X : Nat → Bool) (sites : List (Access × Nat))
+    (h : ∀ s ∈ sites, s.1 ∈ accesses ∧ (isRW s.1.guard = false → X s.2 = true)) :
+    pubGuardedFrom 0 X .N (codeThread sites) = true := by
+  induction sites with
+  | nil => rfl
+  | cons s sites ih =>
+    obtain ⟨hs, hX⟩ := h s (List.mem_cons_self ..)
+    have hrest := ih (fun b hb => h b (List.mem_cons_of_mem s hb))
+    simp only [codeThread, List.flatMap_cons] at hrest ⊢
+    by_cases hW : isW s.1.guard = true
+    · have hst : siteTrace s = [.lock 0, act s.1 s.2, .unlock 0] := by simp [siteTrace, hW]
+      rw [hst]
+      cases hw : s.1.write <;> simp [act, hw, pubGuardedFrom, hrest]
+    · have hnw : s.1.write = false := by
+        cases hw : s.1.write with
+        | false => rfl
+        | true => exact absurd (row_guard s.1 hs hw) hW
+      by_cases hR : isRW s.1.guard = true
+      · have hst : siteTrace s = [.rlock 0, act s.1 s.2, .runlock 0] := by simp [siteTrace, hW, hR]
+        rw [hst]
+        simp [act, hnw, pubGuardedFrom, hrest]
+      · have hRf : isRW s.1.guard = false := by simpa using hR
+        have hst : siteTrace s = [act s.1 s.2] := by simp [siteTrace, hW, hRf]
+        rw [hst]
+        simp [act, hnw, pubGuardedFrom, hrest, hX hRf]
+
+/-- Any number of goroutines, each performing any sequence of the extracted access sites on any
+concrete locations, where the sites the table lists outside the lock (the published reads) touch
+only locations of `X`: under any schedule whose execution obeys the publication rule for `X`, no
+happens-before race. -/
+theorem C10_code_hb_race_free (wv : WriteFn) (X : Nat → Bool) (gs : List (List (Access × Nat)))
+    (h : ∀ g ∈ gs, ∀ s ∈ g, s.1 ∈ accesses ∧ (isRW s.1.guard = false → X s.2 = true)) (sched : List Nat)
+    (hpub : PubOrdered 0 X (trace wv (gs.map codeThread) sched)) :
+    ¬ RaceHB (trace wv (gs.map codeThread) sched) := by
+  apply C10_hb_publication wv 0 X _ _ sched hpub
+  intro t ht
+  obtain ⟨g, hg, rfl⟩ := List.mem_map.mp ht
+  exact codeThread_guarded X g (h g hg)
 
 def protectedAccesses : List Access := accesses.filter mustGuard
 
-def act (a : Access) : Action := if a.write then .write a.loc else .read a.loc
-
-/-- the trace of one extracted access site: inside a critical section of lock 0 iff the table says
-`mu` guards it (one section per access: finer than the code, hence more interleavings) -/
-def eventTrace (a : Access) : Thread :=
-  if a.guard == some muId then [.lock 0, act a, .unlock 0] else [act a]
-
-def codeThread (sites : List Access) : Thread := sites.flatMap eventTrace
-
-theorem codeThread_guarded (sites : List Access) (h : ∀ a ∈ sites, a ∈ protectedAccesses) :
-    guardedFrom 0 false (codeThread sites) = true := by
-  induction sites with
-  | nil => rfl
-  | cons a sites ih =>
-    have ha := h a (List.mem_cons_self ..)
-    have hg : (a.guard == some muId) = true := by
-      have hall := C10_code_guarded
-      unfold codeGuarded at hall
-      rw [List.all_eq_true] at hall
-      have hm := List.mem_filter.mp ha
-      have := hall a hm.1
-      simpa [hm.2] using this
-    have hrest := ih (fun b hb => h b (List.mem_cons_of_mem a hb))
-    simp only [codeThread, List.flatMap_cons, eventTrace, hg, if_true] at hrest ⊢
-    unfold act
-    cases a.write <;> simpa [guardedFrom, codeThread] using hrest
-
-/-- Any number of goroutines, each performing any sequence of the extracted protected access
-sites, under any schedule: no data race. -/
-theorem C10_code_race_free (wv : WriteFn) (gs : List (List Access))
-    (h : ∀ g ∈ gs, ∀ a ∈ g, a ∈ protectedAccesses) :
-    ∀ sched : List Nat, ¬ Race (run wv (gs.map codeThread) sched) := by
-  apply C10_guarded_race_free wv 0
-  intro t ht
-  obtain ⟨g, hg, rfl⟩ := List.mem_map.mp ht
-  exact codeThread_guarded g (h g hg)
-
-/-- The literal form: the thread that performs every protected access site of the table once is
-guarded by lock 0 (= `mu`). -/
-theorem C10_code_allGuardedBy : AllGuardedBy 0 [codeThread protectedAccesses] := by
-  intro t ht
-  simp only [List.mem_singleton] at ht
-  subst ht
-  exact codeThread_guarded protectedAccesses (fun _ h => h)
+/-- … and the sites that must be guarded, alone, in any number and order on any locations: no race
+at all (co-enabled or happens-before), under any schedule, without any rule for the execution. -/
+theorem C10_code_race_free (wv : WriteFn) (gs : List (List (Access × Nat)))
+    (h : ∀ g ∈ gs, ∀ s ∈ g, s.1 ∈ protectedAccesses) (sched : List Nat) :
+    ¬ Race (run wv (gs.map codeThread) sched) ∧ ¬ RaceHB (trace wv (gs.map codeThread) sched) := by
+  have hg : RWGuardedBy 0 (gs.map codeThread) := by
+    intro t ht
+    obtain ⟨g, hg, rfl⟩ := List.mem_map.mp ht
+    refine codeThread_guarded _ g (fun s hs => ?_)
+    have hm := List.mem_filter.mp (h g hg s hs)
+    refine ⟨hm.1, fun hR => ?_⟩
+    have hall := C10_code_guarded
+    unfold codeGuarded at hall
+    rw [List.all_eq_true] at hall
+    have hrow := hall s.1 hm.1
+    rw [hm.2] at hrow
+    have : isRW s.1.guard = true := by
+      cases hw : s.1.write with
+      | true => rw [hw] at hrow; exact isW_isRW _ (by simpa using hrow)
+      | false => rw [hw] at hrow; simpa using hrow
+    rw [this] at hR; cases hR
+  exact ⟨C10_rw_guarded_race_free wv 0 _ hg sched, C10_rw_guarded_hb_race_free wv 0 _ hg sched⟩
 
 /-! ## Non-vacuity -/
 
+abbrev one : WriteFn := fun _ _ _ => 1
+
 /-- a real race: two threads, unguarded write and read of the same location -/
-example : Race (run (fun _ _ _ => 1) [[.write 7], [.read 7]] []) :=
+example : Race (run one [[.write 7], [.read 7]] []) :=
   ⟨0, 1, by decide, .write 7, .read 7, [], [], 7, true, false, rfl, rfl, rfl, rfl, Or.inl rfl⟩
+
+/-- … and the same two accesses, run one after the other, are a happens-before race -/
+example : RaceHB (trace one [[.write 7], [.read 7]] [0, 1]) :=
+  ⟨0, 1, ⟨0, .write 7⟩, ⟨1, .read 7⟩, 7, true, false, by decide, by decide, by decide, by decide, rfl, rfl,
+    Or.inl rfl, not_hb_of_closed _ (fun _ _ => false) (by decide) 0 1 rfl⟩
 
 /-- … the same accesses under a lock satisfy the hypothesis of `C10_guarded_race_free` -/
 example : AllGuardedBy 0 [[.lock 0, .write 7, .unlock 0], [.tau, .lock 0, .read 7, .unlock 0, .lock 3, .unlock 3]] := by decide
 example : ¬ AllGuardedBy 0 [[.lock 0, .write 7, .unlock 0], [.read 7]] := by decide
 
-/-- flat locking with two locks; nesting is rejected -/
-example : NoNesting [[.lock 0, .write 7, .unlock 0, .lock 1, .tau, .unlock 1], [.lock 1, .unlock 1, .lock 0, .read 7, .unlock 0]] := by decide
+/-- reader/writer discipline: a writer and two readers; a write under the read lock is rejected -/
+example : RWGuardedBy 0 [[.lock 0, .read 7, .write 7, .unlock 0], [.rlock 0, .read 7, .runlock 0, .tau],
+    [.rlock 0, .read 7, .runlock 0, .lock 0, .write 7, .unlock 0]] := by decide
+example : ¬ RWGuardedBy 0 [[.rlock 0, .write 7, .runlock 0]] := by decide
+/-- the mutex discipline does not accept `l` used as a read lock, the reader/writer one does -/
+example : ¬ AllGuardedBy 0 [[.rlock 0, .read 7, .runlock 0]] ∧ RWGuardedBy 0 [[.rlock 0, .read 7, .runlock 0]] := by decide
+
+/-- why writes need the write lock: two read sections are not ordered by happens-before even when
+they run one after the other (`RUnlock` → `RLock` is no synchronisation edge), so two "writers"
+under the read lock race -/
+example : RaceHB (trace one [[.rlock 0, .write 7, .runlock 0], [.rlock 0, .write 7, .runlock 0]] [0, 0, 0, 1, 1, 1]) :=
+  ⟨1, 4, ⟨0, .write 7⟩, ⟨1, .write 7⟩, 7, true, true, by decide, by decide, by decide, by decide, rfl, rfl,
+    Or.inl rfl, not_hb_of_closed _ (fun a b => decide (b < 3) || decide (3 ≤ a)) (by decide) 1 4 rfl⟩
+
+/-! ### publication -/
+
+/-- location 5 is the payload that is read outside the lock, location 1 the index (the flag) -/
+def pubX : Nat → Bool := fun x => x == 5
+
+/-- a builder (writes payload and index in its critical section, reads the payload after it), a
+reader through the mutex and a reader through the read lock (both read the payload after their
+section) -/
+def pubProg : Prog := [
+  [.lock 0, .write 5, .write 1, .unlock 0, .read 5],
+  [.lock 0, .read 1, .unlock 0, .read 5],
+  [.rlock 0, .read 1, .runlock 0, .read 5]]
+
+example : PubGuardedBy 0 pubX pubProg := by decide
+/-- not covered by the lockset disciplines: the payload is read outside the lock -/
+example : ¬ RWGuardedBy 0 pubProg := by decide
+
+/-- the builder first, the readers' sections interleaved after it: the publication rule holds,
+hence no happens-before race -/
+def pubGood : List Nat := [0, 0, 0, 0, 2, 1, 2, 2, 1, 1, 2, 0, 1]
+
+example : PubOrdered 0 pubX (trace one pubProg pubGood) := pubOrdered_of_check _ _ _ (by decide)
+example : ¬ RaceHB (trace one pubProg pubGood) :=
+  C10_hb_publication one 0 pubX pubProg (by decide) pubGood (pubOrdered_of_check _ _ _ (by decide))
+
+/-- the rule violated: thread 1 went through the lock *before* the builder published and reads the
+payload afterwards without going through the lock again — a happens-before race on location 5
+between the builder's write (position 4) and that read (position 7) -/
+def pubBad : List Nat := [1, 1, 1, 0, 0, 0, 0, 1]
+
+theorem pubBad_races : RaceHB (trace one pubProg pubBad) :=
+  ⟨4, 7, ⟨0, .write 5⟩, ⟨1, .read 5⟩, 5, true, false, by decide, by decide, by decide, by decide, rfl, rfl,
+    Or.inl rfl, not_hb_of_closed _ (fun a b => !(decide (3 ≤ a) && b == 7)) (by decide) 4 7 rfl⟩
+
+example : ¬ PubOrdered 0 pubX (trace one pubProg pubBad) :=
+  fun h => C10_hb_publication one 0 pubX pubProg (by decide) pubBad h pubBad_races
+
+/-! ### deadlock -/
+
+/-- flat locking with two locks, in both modes; nesting is rejected -/
+example : NoNesting [[.lock 0, .write 7, .unlock 0, .rlock 1, .tau, .runlock 1], [.lock 1, .unlock 1, .rlock 0, .read 7, .runlock 0]] := by decide
 example : ¬ NoNesting [[.lock 0, .lock 1, .unlock 1, .unlock 0]] := by decide
+example : ¬ NoNesting [[.rlock 0, .rlock 0, .runlock 0, .runlock 0]] := by decide
 
 /-- the classic deadlock is a nested program and really is stuck: both threads unfinished, none enabled -/
-example : let s := run (fun _ _ _ => 0) [[.lock 0, .lock 1, .unlock 1, .unlock 0], [.lock 1, .lock 0, .unlock 0, .unlock 1]] [0, 1]
-    (¬ AllDone s) ∧ ∀ i, ¬ Enabled s i := by
-  refine ⟨fun h => by have := h 0 _ rfl; simp at this, ?_⟩
-  intro i ⟨a, r, hr, hen⟩
-  match i with
-  | 0 => simp [run, runFrom, step, init, upd] at hr; obtain ⟨rfl, _⟩ := hr; simp [run, runFrom, step, init, upd] at hen
-  | 1 => simp [run, runFrom, step, init, upd] at hr; obtain ⟨rfl, _⟩ := hr; simp [run, runFrom, step, init, upd] at hen
-  | n + 2 => simp [run, runFrom, step, init, upd] at hr
+example : let s := run one [[.lock 0, .lock 1, .unlock 1, .unlock 0], [.lock 1, .lock 0, .unlock 0, .unlock 1]] [0, 1]
+    (¬ AllDone s) ∧ ∀ i, ¬ Enabled s i := stuck_of_check _ (by decide)
+
+/-- The seeded change C10-m3 in the model: a reader that takes the read lock twice (`cached` →
+`SchemaByName`) and a writer (first use of a type). After the reader's first `RLock` the writer
+announces itself; from then on the reader's second `RLock` waits for the writer and the writer for
+the reader: stuck for ever. Without the writer the recursive read lock goes through. -/
+def m3Prog : Prog := [[.rlock 0, .rlock 0, .read 7, .runlock 0, .runlock 0], [.lock 0, .write 7, .unlock 0]]
+
+example : ¬ NoNesting m3Prog := by decide
+example : let s := run one m3Prog [0, 1]
+    (¬ AllDone s) ∧ ∀ i, ¬ Enabled s i := stuck_of_check _ (by decide)
+example : AllDone (run one m3Prog [0, 0, 0, 0, 0, 1, 1, 1]) := allDone_of_check _ (by decide)
 
 /-- operations as critical sections -/
 example : OpsProg 0 [[.lock 0, .read 1, .write 1, .unlock 0, .lock 0, .write 2, .unlock 0], [.lock 0, .read 1, .write 1, .unlock 0]] := by decide
@@ -263,10 +484,12 @@ example : OpsProgT 0 [[.tau, .lock 0, .read 1, .write 1, .unlock 0, .tau, .tau, 
 
 /-- the table has protected accesses, and a thread built from them is a genuine locked program -/
 example : protectedAccesses.length > 10 := by decide
-example : protectedAccesses.any (fun a => a.write && a.isMap && (eventTrace a).length == 3) = true := by decide
+example : protectedAccesses.any (fun a => a.write && a.isMap && (siteTrace (a, 0)).length == 3) = true := by decide
+/-- the published reads are sites outside every section -/
+example : accesses.any (fun a => !isRW a.guard && (siteTrace (a, 0)).length == 1) = true := by decide
 
 /-- if a `Lock` is stripped, the instantiation fails: an unguarded protected write violates the discipline -/
-example : guardedFrom 0 false (eventTrace ⟨15, true, true, true, none, "SchemaCache.referencePackage", "x"⟩) = false := by decide
+example : pubGuardedFrom 0 (fun _ => true) .N (siteTrace (⟨15, true, true, true, none, "SchemaCache.referencePackage", "x"⟩, 3)) = false := by decide
 
 /-- A ↔ B mutually recursive, B → C shared with D, E fails (bad field), F → E. -/
 def demo : Graph := [
@@ -308,5 +531,53 @@ example : GoodFrom demo 2 := by
   cases hm with
   | refl => exact ⟨_, rfl, rfl, by simp⟩
   | head _ t _ ht _ => simp [refs, demo] at ht
+
+/-! ### the table meets the hypotheses of the instantiation -/
+
+/-- every write site of the table on location 3, every published-read site on location 7 (which
+is in `X`): the hypothesis of `C10_code_hb_race_free` holds, with sites inside and outside the lock -/
+example :
+    let gs : List (List (Access × Nat)) :=
+      [(accesses.filter (·.write)).map (·, 3), (accesses.filter (fun a => !isRW a.guard)).map (·, 7)]
+    (∀ g ∈ gs, ∀ s ∈ g, s.1 ∈ accesses ∧ (isRW s.1.guard = false → (fun x => x == 7) s.2 = true)) ∧
+    gs.all (fun g => g.length > 10) = true := by decide
+
+/-! ### the seeded change C10-m2 in the model: a lock split
+
+`buildMu` (lock 0) still serialises builds, but the index is guarded by a separate `mapMu`
+(lock 1) held only per map operation, and `Schema` first looks the type up under `mapMu.RLock`
+alone. Location 10 = the index (`Package.Schemas`), location 11 = `RefSchema.To`. -/
+
+def m2Prog : Prog := [
+  [.lock 0, .lock 1, .write 10, .unlock 1, .write 11, .unlock 0],   -- a build: register the placeholder, …, link
+  [.rlock 1, .read 10, .read 11, .runlock 1]]                        -- the lookup fast path
+
+/-- no discipline of this file accepts it: nested acquisition; neither lock guards all accesses;
+the operations are not critical sections of one lock -/
+example : ¬ NoNesting m2Prog ∧ ¬ RWGuardedBy 0 m2Prog ∧ ¬ RWGuardedBy 1 m2Prog ∧
+    ¬ OpsProg 0 m2Prog ∧ ¬ RWOpsProg 0 m2Prog ∧ ¬ RWOpsProg 1 m2Prog := by decide
+
+/-- lookups are not serialised with builds: the whole lookup runs while the builder is inside its
+build (it still owns `buildMu`), and it observes the index entry (1) with `To` still unset (0) —
+the placeholder of a build in progress -/
+example : let s := run one m2Prog [0, 0, 0, 0, 1, 1, 1, 1]
+    s.owner 0 = some 0 ∧ s.rem[1]? = some [] ∧ s.logs[1]? = some [1, 0] := by decide
+
+/-- … and the link that follows is a happens-before race with that lookup's read of `To` -/
+example : RaceHB (trace one m2Prog [0, 0, 0, 0, 1, 1, 1, 1, 0, 0]) :=
+  ⟨6, 8, ⟨1, .read 11⟩, ⟨0, .write 11⟩, 11, false, true, by decide, by decide, by decide, by decide, rfl, rfl,
+    Or.inr rfl, not_hb_of_closed _ (fun a b => !(decide (4 ≤ a) && decide (a ≤ 7) && decide (8 ≤ b))) (by decide) 6 8 rfl⟩
+
+/-- In the cache model the state such a lookup sees is the cache right after the builder registered
+the placeholder, `insert c d none`. It is not a state between whole requests — the premise
+`Reachable` of `C10_no_unlinked_visible` fails — and `Schema` on it answers "unlinked ref". -/
+theorem C10_m2_mid_build_state (G : Graph) (c : Cache) (d : Nat) :
+    ¬ Reachable G (insert c d none) ∧ (schemaOf G (insert c d none) d).2 = .err := by
+  refine ⟨fun hr => ?_, by simp [schemaOf, find, J5V.Conc.Cache.insert]⟩
+  have := C10_no_unlinked_visible G _ hr d none (by simp [find, J5V.Conc.Cache.insert])
+  cases this
+
+/-- the request that fails in the middle of somebody else's build succeeds alone -/
+example : (schemaOf demo emptyCache 0).2 = .ok ∧ (schemaOf demo (insert emptyCache 0 none) 0).2 = .err := by decide
 
 end J5V.Props.C10
